@@ -7,12 +7,16 @@
 #include <QString>
 #include <QList>
 #include <new>
+#include <cstring>
 #ifndef VP_MAP_CAP
 #define VP_MAP_CAP 3
 #endif
 extern "C" void vp_c12_model_limit(bool ok);   // models.c: ASSERT(ok, "..."), ASSUME(ok)
 
-template<typename V> union VpCell { V v; char none; VpCell() : none(0) {} ~VpCell() {} };
+// A cell that is not in use is zero-filled, never uninitialised: symbolic execution merges references to several cells,
+// and a read of uninitialised storage on an infeasible branch of such a merge would poison every later dereference.
+// Zero is inert for the value types used here (d-pointers: the Qt smart pointers skip null; flags: false).
+template<typename V> union VpCell { V v; char none; VpCell() { std::memset(static_cast<void *>(this), 0, sizeof(*this)); } ~VpCell() {} };
 
 template<typename V> class VpSlotMap
 {
@@ -26,7 +30,7 @@ public:
     VpSlotMap &operator=(const VpSlotMap &o) { if (this != &o) { clear(); copyFrom(o); } return *this; }
     ~VpSlotMap() { clear(); }
 
-    void clear() { for (int i = 0; i < VP_MAP_CAP; i++) { if (used[i]) { cell[i].v.~V(); used[i] = false; key[i] = QString(); } } }
+    void clear() { for (int i = 0; i < VP_MAP_CAP; i++) { if (used[i]) { cell[i].v.~V(); new (&cell[i]) VpCell<V>(); used[i] = false; key[i] = QString(); } } }
     int size() const { int n = 0; for (int i = 0; i < VP_MAP_CAP; i++) { if (used[i]) n++; } return n; }
     int count() const { return size(); }
     bool isEmpty() const { return size() == 0; }
@@ -51,7 +55,7 @@ public:
     }
     int remove(const QString &k)
     {
-        for (int i = 0; i < VP_MAP_CAP; i++) { if (used[i] && key[i] == k) { cell[i].v.~V(); used[i] = false; key[i] = QString(); return 1; } }
+        for (int i = 0; i < VP_MAP_CAP; i++) { if (used[i] && key[i] == k) { cell[i].v.~V(); new (&cell[i]) VpCell<V>(); used[i] = false; key[i] = QString(); return 1; } }
         return 0;
     }
     QList<QString> keys() const { QList<QString> r; for (int i = 0; i < VP_MAP_CAP; i++) { if (used[i]) r.append(key[i]); } return r; }
